@@ -376,3 +376,14 @@ def subscription_input_regression() -> Scenario:
                     files={"scalars_impl.py": SCALARS_PY},
                     notes={"shape": "subscription-input-regression", "routes": {}, "ops_with_variables": 2, "n_inputs": 4,
                            "scalar_fields": 0, "scalars_configured": 0})
+
+
+def coq_doc_example() -> Scenario:
+    """the document of Properties/C09.v C09_doc_example (arguments added so that the variables are used)"""
+    sdl = ("enum Kind { A B }\nenum Deep { X }\nenum Never { N }\ninput InA { x: Int }\ntype Leaf { deep: Deep }\n"
+           "type Mid { kind: Kind! leaf: [Leaf] }\ntype Query { mid(a: InA!, k: [Kind]): Mid }\n")
+    queries = ("query Q($a: InA!, $k: [Kind]) { mid(a: $a, k: $k) { ... on Mid @include(if: true) { ...F } } }\n\n"
+               "fragment F on Mid { leaf { deep } }\n\nfragment Unused on Mid { kind }\n")
+    return Scenario(seed=-4, sdl=sdl, queries=queries, config={}, features=("prune",), files={"scalars_impl.py": SCALARS_PY},
+                    notes={"shape": "coq-example:doc", "routes": {}, "ops_with_variables": 1, "n_inputs": 1,
+                           "scalar_fields": 0, "scalars_configured": 0})
